@@ -36,6 +36,10 @@ def configs(ctx):
     # the sweep with repeated passes (num_samples_data_point / num_samples_prune_regraph = 2), as the CLI allows
     out.append(dc(op="sweep", n=2, proposal="semi-adapted", data_seed=56, n_dp=2, n_prg=2, alpha=1.5))
     out.append(dc(op="sweep", n=2, proposal="bootstrap", data_seed=57, n_dp=1, n_prg=3, outlier_prob=0.2))
+    out.append(dc(op="sweep", n=2, proposal="fully-adapted", data_seed=60, n_dp=3, n_prg=1, alpha=0.7))
+    out.append(dc(op="sweep", n=2, proposal="bootstrap", data_seed=61, n_dp=1, n_prg=4, samples=3))
+    out.append(dc(op="dp", n=3, data_seed=62, samples=3, outlier_prob=0.1, alpha=0.15))
+    out.append(dc(op="prg", n=3, data_seed=63, samples=3, alpha=12.0))
     mandatory = len(out)
     out.append(dc(op="subtree", n=4, style="flat", symmetric=1, proposal="semi-adapted", wiring="run", data_seed=53))
     out.append(dc(op="sweep", n=3, proposal="semi-adapted", data_seed=47))
